@@ -48,6 +48,14 @@ CHECKS.update(
     C14=dict(text="Symbolic execution of the four real step solvers (matrix assembly, rhs split, elimination/back-substitution, CSR surgery) and newton.py with the linear solver replaced by an exact-solve oracle (any s with M s = rhs): the returned step (dx before clipping, dy) is proved by z3/nlsat to satisfy the dense reference Newton system F'(z_hat) s = F(z) for the active set used; second simplified step uses base matrix + current residual; Simplified/Full/ActiveSet hand identical first systems to the linear solver; symbolic QPs: one step zeroes the residual. n<=2, m<=1 (thorough m<=2, Standard n=3).", note="Exact reals; linear solver assumed exact (tolerances are C17); multiplier-linear Hessian model; one listed known finding (asymmetric formulation crashes when hess[j,j]+lambda cancels exactly).", ref="DESIGN.md §6 C14"),
 )
 
+L2 = "one call of the real StepController.compute_step from an ARBITRARY state (any in-box iterate, rho, dt, controller memory, clock) with the real controllers (Exact/Fixed/ResiduumRatio/DistanceRatio), LogController, all four Newton methods incl. the Armijo line search, ImplicitFunc, StepResult and ValidatingEvaluator, the step solver being an arbitrary oracle behind the public Params.step_solver hook and every user callback an uninterpreted function that may return a non-finite value at any call; "
+CHECKS.update(
+    C05=dict(text="Symbolic execution (z3) of " + L2 + "every argument of every user callback and every produced iterate is proved to lie in the box; start iterate (with scaling) and returned x likewise (array + L1 harness); real step solvers produce the clipped step (L3); the clip kernel StepResult._compute_xn/.iterate is proved bit-exactly over IEEE-754 binary64 in QF_FP (binary32: one listed known finding).", note="Monitor in exact reals with uninterpreted products refined on counterexamples (n=1, m<=1, <=3 Newton solves, line search unwound 2); FP kernel n<=2 all doubles; cyipopt-based controllers not installed -> outside.", ref="DESIGN.md §6 C05"),
+    C07=dict(text="Symbolic fault schedule: " + L2 + "after any failure (non-finite value at any callback position, step-solver failure at any solve) the same iterate object comes back unaccepted with doubled lambda, accepted candidates carry no fault flag; L3: each real step solver converts an oracle LinearSolverError at the factorisation or any solve into StepSolverError; L1: a non-finite value at the start gives the dedicated exception; the Optimal gate holds for every history (arbitrary oracle).", note="Fault = symbolic flag on returned values (validate_input=True); finiteness of returned x,y,d in floating point is outside (whole-run float arithmetic).", ref="DESIGN.md §6 C07"),
+)
+CHECKS["C15"]["text"] = CHECKS["C15"]["text"] + " Controller level (L2): " + L2 + "rejected => lambda' > lambda, failure => 2*lambda and the same iterate, Exact accepted => independent implicit-Euler residual <= newton_tol componentwise, Fixed keeps lambda."
+CHECKS["C15"]["note"] = L1NOTE + " L2: n=1, m<=1, <=3 Newton iterations per trial (ExactController's 10 unwound to 3; deeper paths reported as aborted at the bound)."
+
 NOT_APPLICABLE = {
     "C03": "liveness/convergence of hundreds of floating-point Newton iterations with data-dependent trip count: no bounded symbolic encoding can decide it (DESIGN.md §7)",
 }
